@@ -17,6 +17,7 @@ EXPLANATION = (
     "-chars().count(). R01.6: cache alphabet constants and CharacterType discriminants fit the 3-bit alphabet; "
     "R01.7: cache table size/mask/index forms."
 )
+THOROUGH_CONFIGS = [C.NO_CHARWISE, C.NO_CACHE, C.NO_FIX, C.NO_TAG, C.MINIMAL, C.SIMD]
 NOT_DECIDED = [
     "merged weight arithmetic (merge, add_assign) and the add_score inner loops (fixed/variable/negative positions)",
     "content of the 8^(2W) cache table and of str_to_char_pos", "daachorse match semantics",
@@ -51,8 +52,7 @@ def sign_of(c):
 
 
 def run(chk):
-    w = facts.world("W")
-    chk.configs.add("W")
+    w = C.world_for(chk)
     for rid, txt in (("R01.1", "threshold table: >0 -> WordBoundary, else NotWordBoundary, one store per boundary, never Unknown"),
                      ("R01.2", "padding/resize/zip/accessor forms"), ("R01.3", "scorer pipeline and dispatcher totality"),
                      ("R01.4", "daachorse iterator <-> merged weights pairing"), ("R01.5", "add_score position and offset forms"),
@@ -188,6 +188,8 @@ def run(chk):
 
     dispatch(chk, w, "vaporetto::char_scorer::CharScorer", 2)
     dispatch(chk, w, "vaporetto::type_scorer::TypeScorer", 3)
+    global _CHK_CONFIG
+    _CHK_CONFIG = chk.config
     accessor(chk, w)
     pairing(chk, w)
     offsets(chk, w)
@@ -204,7 +206,10 @@ def dispatch(chk, w, enum, floor):
     for o in outs:
         c = o.cons.get("m:arg1")
         if not c or c[0] != "varis":
-            continue
+            if len(ad["variants"]) == 1 and o.kind == "return":
+                c = ("varis", enum, ad["variants"][0]["name"])
+            else:
+                continue
         v = c[2]
         calls = [e for e in o.trace if e[0] == "call" and e[2] and e[2].endswith("::add_scores")]
         seen[v] = (o.kind, calls)
@@ -219,7 +224,7 @@ def dispatch(chk, w, enum, floor):
         chk.ob("R01.3", "dispatch:%s::%s" % (enum.split("::")[-1], v), bool(ok),
                "variant %s of %s is not forwarded to %s::add_scores(payload, sentence) exactly once (found %s, %s)"
                % (v, enum, payload_adt, kind, [c[2] for c in calls]), site=C.site(b), sample={"variant": v, "forwarded_to": [c[2] for c in calls]})
-    chk.floor("R01.3", "dispatch arms of " + enum.split("::")[-1], n, floor)
+    chk.floor("R01.3", "dispatch arms of " + enum.split("::")[-1], n, floor, other=1)
 
 
 def accessor(chk, w):
@@ -289,8 +294,8 @@ def pairing(chk, w):
                 bad += 1
                 chk.ob("R01.4", "%s:%s" % (fn.split("::")[-2], itname), False,
                        "%s uses daachorse iterator %s: occurrences of n-grams that overlap other matches are not all reported" % (fn, itname), site=C.site(b, bb))
-    chk.floor("R01.4", "merged scorers", merged, 4)
-    chk.floor("R01.4", "raw (all-matches) users", raw, 2)
+    chk.floor("R01.4", "merged scorers", merged, 4, other=2)
+    chk.floor("R01.4", "raw (all-matches) users", raw, 2, other=0)
 
 
 def offsets(chk, w):
@@ -298,6 +303,8 @@ def offsets(chk, w):
     n_off = 0
     for owner, kind, _ in SCORERS:
         fn = owner + "::add_scores"
+        if chk.config != "W" and w.body(fn) is None:
+            continue   # tag scorers are not part of this configuration
         b, it, outs = C.run_fn(w, fn)
         chk.fn(fn)
         for e, o in C.all_calls(outs, lambda e: e[2] == "vaporetto::predictor::PositionalWeight::add_score"):
@@ -336,5 +343,5 @@ def offsets(chk, w):
             chk.ob("R01.5", "%s:offset:%s" % (owner.split("::")[-1], "ngram" if (wname,) in f else "dict"), ok,
                    "positional weight offset is %s; expected -window_size (n-grams) or -word.chars().count() (dictionary words)" % forms.show(f),
                    site=C.site(bn, e[1]), sample={"fn": nfn, "form": forms.show(f), "ok": what})
-    chk.floor("R01.5", "add_score call sites", n_sites, 4)
-    chk.floor("R01.5", "offset constructions", n_off, 6)
+    chk.floor("R01.5", "add_score call sites", n_sites, 4, other=2)
+    chk.floor("R01.5", "offset constructions", n_off, 6, other=3)
